@@ -103,7 +103,7 @@ type mutOutcome struct {
 	fired   []string
 }
 
-func runSelfTest(repo, dir, property string) selfTestResult {
+func runSelfTest(repo, dir, property, knownPath string) selfTestResult {
 	res := selfTestResult{Summary: map[string]any{}}
 	cat, err := loadCatalogue(dir)
 	if err != nil {
@@ -163,7 +163,7 @@ func runSelfTest(repo, dir, property string) selfTestResult {
 					return
 				}
 			}
-			cmd := exec.Command(self, "-repo", d, "-property", j.prop, "-tier", "quick", "-known", "")
+			cmd := exec.Command(self, "-repo", d, "-property", j.prop, "-tier", "quick", "-known", knownPath)
 			cmd.Env = append(os.Environ(), "VERIF_TIER=quick")
 			out, _ := cmd.CombinedOutput()
 			text := string(out)
